@@ -544,3 +544,110 @@ func (w *World) verifyImmutable(p pkgT, d ImmutableDecl) *UnitResult {
 	res.Obls = []*Obligation{{Name: res.Key + "#frame:immutable", Kind: "frame", Func: res.Key, PC: tTrue, Goal: goal, Text: txt, syntactic: true}}
 	return res
 }
+
+// verifyFieldPartition: every field of the struct is either compared (a difference forces a rebuild), refreshed on
+// every cache hit, or determined by the map key. Decided over the typed AST (so a new field or a dropped comparison /
+// refresh is noticed).
+func (w *World) verifyFieldPartition(p pkgT, fp FieldPartition) *UnitResult {
+	res := &UnitResult{Key: pkgRel(p) + ".fieldpartition:" + fp.Type, Pkg: pkgRel(p), Props: fp.Props, Kind: "frame", decls: []string{}}
+	obj := p.Types.Scope().Lookup(fp.Type)
+	if obj == nil {
+		res.Err = "type not found: " + fp.Type
+		return res
+	}
+	st, ok := obj.Type().Underlying().(*types.Struct)
+	if !ok {
+		res.Err = "not a struct: " + fp.Type
+		return res
+	}
+	isT := func(e ast.Expr) bool {
+		t := p.TypesInfo.TypeOf(e)
+		if t == nil {
+			return false
+		}
+		if pt, ok := t.Underlying().(*types.Pointer); ok {
+			t = pt.Elem()
+		}
+		return types.Identical(t, obj.Type())
+	}
+	fieldsIn := func(n ast.Node) map[string]bool {
+		out := map[string]bool{}
+		ast.Inspect(n, func(m ast.Node) bool {
+			if se, ok := m.(*ast.SelectorExpr); ok && isT(se.X) {
+				out[se.Sel.Name] = true
+			}
+			return true
+		})
+		return out
+	}
+	returnsDifferent := func(b *ast.BlockStmt) bool {
+		found := false
+		ast.Inspect(b, func(m ast.Node) bool {
+			if r, ok := m.(*ast.ReturnStmt); ok && len(r.Results) == 1 {
+				if id, ok := r.Results[0].(*ast.Ident); ok && id.Name == "Different" {
+					found = true
+				}
+			}
+			return true
+		})
+		return found
+	}
+	compared := map[string]bool{}
+	cfn := w.findFunc(p, fp.Compared)
+	if cfn == nil || w.funcDecls[cfn] == nil {
+		res.Err = "comparison function not found: " + fp.Compared
+		return res
+	}
+	ast.Inspect(w.funcDecls[cfn].Body, func(m ast.Node) bool {
+		if is, ok := m.(*ast.IfStmt); ok && returnsDifferent(is.Body) {
+			for f := range fieldsIn(is.Cond) {
+				compared[f] = true
+			}
+		}
+		return true
+	})
+	keyed := map[string]bool{}
+	for _, k := range fp.Keyed {
+		keyed[k] = true
+	}
+	var required []string
+	for i := 0; i < st.NumFields(); i++ {
+		f := st.Field(i).Name()
+		if strings.HasPrefix(f, "XXX_") || compared[f] || keyed[f] {
+			continue
+		}
+		required = append(required, f)
+	}
+	sort.Strings(required)
+	for _, rf := range fp.Refreshed {
+		fn := w.findFunc(p, rf)
+		goal, txt := tTrue, fmt.Sprintf("%s refreshes every field of %s that %s does not compare (and that is not keyed): %v", rf, fp.Type, fp.Compared, required)
+		if fn == nil || w.funcDecls[fn] == nil {
+			goal, txt = tFalse, "refresh function not found: "+rf
+		} else {
+			assigned := map[string]bool{}
+			ast.Inspect(w.funcDecls[fn].Body, func(m ast.Node) bool {
+				if as, ok := m.(*ast.AssignStmt); ok {
+					for _, l := range as.Lhs {
+						if se, ok := l.(*ast.SelectorExpr); ok && isT(se.X) {
+							assigned[se.Sel.Name] = true
+						}
+					}
+				}
+				return true
+			})
+			var missing []string
+			for _, f := range required {
+				if !assigned[f] {
+					missing = append(missing, f)
+				}
+			}
+			if len(missing) > 0 {
+				goal = tFalse
+				txt += fmt.Sprintf("; NOT refreshed: %v (answers served from the cache would keep stale values of these fields)", missing)
+			}
+		}
+		res.Obls = append(res.Obls, &Obligation{Name: res.Key + "#frame:refreshed-by:" + rf, Kind: "frame", Func: res.Key, PC: tTrue, Goal: goal, Text: txt, syntactic: true})
+	}
+	return res
+}
